@@ -5,6 +5,7 @@ for op in ['lookup', 'alloc', 'free', 'update', 'clear', 'foreach_remove']:
         JOBS.append(Job('cabinet.%s.spare%d' % (op, spare), 'C08/cabinet.cpp', 'h_' + op, 'B', defs={'NCELL': 3, 'SPARE': spare}, reach=[op],
                         timeout=600, clause='cabinet one-step induction: ' + op))
 JOBS.append(Job('pool.hist5', 'C08/pool.cpp', 'h_pool', 'B', defs={'STEPS': 5}, reach=['pool'], timeout=600, clause='object pool: all alloc/free histories of 5 steps, retention limit symbolic'))
+JOBS.append(Job('pool.nested', 'C08/pool.cpp', 'h_pool_nested', 'B', reach=['pool_nested'], timeout=600, clause='object pool used re-entrantly: an element constructor allocating from the same pool (chain of 3) with 0-2 blocks parked, retention limit symbolic: no storage handed out twice, contents intact, ctor/dtor pair up'))
 JOBS.append(Job('pool.hist7', 'C08/pool.cpp', 'h_pool', 'B', defs={'STEPS': 7}, reach=['pool'], timeout=1800, tier='thorough', clause='object pool: all alloc/free histories of 7 steps'))
 FDOPS = ['copy', 'copy_assign', 'move', 'move_assign', 'reset', 'close', 'swap', 'self_assign', 'none']
 for i, nm in enumerate(FDOPS):
